@@ -606,6 +606,9 @@ def run(repo, chk, tier):
     from .c11_helicity import check_frame_typing
 
     check_frame_typing(repo, chk)
+    from .c02_align import check_alignment_cover
+
+    check_alignment_cover(repo, chk)
     chk.rule(
         "E3-fwd",
         "at every call site of the angle-option chain, an argument that carries option N (caller parameter N, self.N, "
